@@ -845,7 +845,10 @@ class _Namespaces:
             ns_rules,
             key=operator.attrgetter('namespaceURI'),
         )
-        return {rule.prefix: rule.namespaceURI for rule in unique_rules}
+        # back in sheet order, a later declaration of a prefix is the effective one
+        return {
+            rule.prefix: rule.namespaceURI for rule in reversed(list(unique_rules))
+        }
 
     def get(self, prefix, default):
         return self.namespaces.get(prefix, default)
